@@ -2,11 +2,14 @@ package main
 
 import (
 	"fmt"
+	"go/ast"
+	"go/constant"
 	"go/token"
 	"go/types"
 	"strings"
 
 	"golang.org/x/tools/go/ssa"
+	"golang.org/x/tools/go/types/typeutil"
 )
 
 // Small structural rules shared by several properties.
@@ -313,22 +316,135 @@ func boolConst(k *ssa.Const) bool {
 // only under the container ring's own Convex(), and only rectangles claim
 // convexity by constant.
 func (p *Program) ruleConvexGate(c *Check) {
-	for _, name := range []string{"ringContainsSegment", "ringContainsRing"} {
-		fn := p.SSAFunc(p.Func("geometry", name))
-		con := "geometry." + name + "#convex-gate"
-		if fn == nil {
-			c.Undecided("E12.convex", con, "", "function not found")
+	rcp := p.SSAFunc(p.Func("geometry", "ringContainsPoint"))
+	rcs := p.SSAFunc(p.Func("geometry", "ringContainsSegment"))
+	rcr := p.SSAFunc(p.Func("geometry", "ringContainsRing"))
+	for _, fn := range []*ssa.Function{rcs, rcr} {
+		if fn == nil || rcp == nil || rcs == nil || len(fn.Params) < 2 {
+			c.Undecided("E12.convex", "anchor:geometry.ringContainsSegment/ringContainsRing", "", "function not found")
 			continue
 		}
-		gated := false
+		con := "geometry." + fn.Name() + "#convex-gate"
+		type edge struct{ from, to *ssa.BasicBlock }
+		// polarity-aware edges of every `if` in fn
+		edgesOf := func(b *ssa.BasicBlock) (cond ssa.Value, tEdge, fEdge edge, ok bool) {
+			if len(b.Instrs) == 0 {
+				return
+			}
+			iff, isIf := b.Instrs[len(b.Instrs)-1].(*ssa.If)
+			if !isIf {
+				return
+			}
+			cond = iff.Cond
+			t, f := b.Succs[0], b.Succs[1]
+			for {
+				u, isNot := cond.(*ssa.UnOp)
+				if !isNot || u.Op != token.NOT {
+					break
+				}
+				cond = u.X
+				t, f = f, t
+			}
+			return cond, edge{b, t}, edge{b, f}, true
+		}
+		isConvexOfContainer := func(v ssa.Value) bool {
+			cl, ok := v.(*ssa.Call)
+			return ok && cl.Call.IsInvoke() && cl.Call.Method.Name() == "Convex" && cl.Call.Value == fn.Params[0]
+		}
+		callsIn := func(b *ssa.BasicBlock, callee *ssa.Function) bool {
+			for _, in := range b.Instrs {
+				if cl, ok := in.(*ssa.Call); ok && cl.Call.StaticCallee() == callee {
+					return true
+				}
+			}
+			return false
+		}
+		removedT := map[edge]bool{} // Convex()==true edges
+		removedAll := map[edge]bool{}
+		gates := 0
 		for _, b := range fn.Blocks {
-			if iff, ok := b.Instrs[len(b.Instrs)-1].(*ssa.If); ok {
-				if cl, ok := iff.Cond.(*ssa.Call); ok && cl.Call.IsInvoke() && cl.Call.Method.Name() == "Convex" && cl.Call.Value == fn.Params[0] {
-					gated = true
+			cond, te, fe, ok := edgesOf(b)
+			if !ok {
+				continue
+			}
+			if isConvexOfContainer(cond) {
+				gates++
+				removedT[te] = true
+				removedAll[te] = true
+				// the concave arm: the false successor dominates a per-segment test
+				for _, sb := range fn.Blocks {
+					if callsIn(sb, rcs) && fe.to.Dominates(sb) && fn != rcs {
+						removedAll[fe] = true
+					}
+				}
+			}
+			// the bounding-rectangle shortcut of ringContainsRing: ringContainsRing(container, X.Rect(), …) == true
+			if cl, ok := cond.(*ssa.Call); ok && fn == rcr && cl.Call.StaticCallee() == rcr && len(cl.Call.Args) >= 2 && cl.Call.Args[0] == fn.Params[0] {
+				removedAll[te] = true
+			}
+			// degenerate segment (A == B) and the on-edge case analysis of ringContainsSegment
+			if fn == rcs {
+				if bo, ok := cond.(*ssa.BinOp); ok && bo.Op == token.EQL && derivedFromParam(bo.X, fn.Params[1]) && derivedFromParam(bo.Y, fn.Params[1]) {
+					removedAll[te] = true
+				}
+				if len(fn.Params) >= 3 && cond == ssa.Value(fn.Params[2]) {
+					removedAll[te] = true
 				}
 			}
 		}
-		c.Expect(gated, "E12.convex", con, p.Pos(fn.Pos()), "the shortcut is decided by Convex() of the container ring", "the convex shortcut is not gated by the container ring's Convex(): a concave container would accept segments that leave it")
+		reach := func(removed map[edge]bool) map[*ssa.BasicBlock]bool {
+			seen := map[*ssa.BasicBlock]bool{fn.Blocks[0]: true}
+			work := []*ssa.BasicBlock{fn.Blocks[0]}
+			for len(work) > 0 {
+				b := work[len(work)-1]
+				work = work[:len(work)-1]
+				for _, s := range b.Succs {
+					if removed[edge{b, s}] || seen[s] {
+						continue
+					}
+					seen[s] = true
+					work = append(work, s)
+				}
+			}
+			return seen
+		}
+		if gates == 0 {
+			c.Bad("E12.convex", con, p.Pos(fn.Pos()), "the convex shortcut is not gated by the container ring's Convex(): a concave container would accept segments that leave it")
+			continue
+		}
+		bad := ""
+		// (1) the vertex-only test (ringContainsRing) is reachable only through Convex()==true
+		if fn == rcr {
+			rT := reach(removedT)
+			for _, b := range fn.Blocks {
+				if rT[b] && callsIn(b, rcp) {
+					bad = "the vertices-only containment test can be reached without the container ring's Convex() being true (" + p.Pos(b.Instrs[0].Pos()) + ")"
+				}
+			}
+		}
+		// (2) no constant acceptance is reachable except through Convex()==true, the per-segment arm, or a recognised special case
+		rA := reach(removedAll)
+		for _, b := range fn.Blocks {
+			if !rA[b] || len(b.Instrs) == 0 {
+				continue
+			}
+			if ret, ok := b.Instrs[len(b.Instrs)-1].(*ssa.Return); ok && len(ret.Results) == 1 {
+				if k, ok := ret.Results[0].(*ssa.Const); ok && boolConst(k) && fn == rcs {
+					bad = "ringContainsSegment accepts (returns true) on a path that neither tests the container's Convex() nor searches the ring's segments (" + p.Pos(ret.Pos()) + ")"
+				}
+				if k, ok := ret.Results[0].(*ssa.Const); ok && boolConst(k) && fn == rcr {
+					bad = "ringContainsRing accepts (returns true) on a path that passes neither Convex()==true, nor the per-segment arm, nor the rectangle shortcut (" + p.Pos(ret.Pos()) + ")"
+				}
+				if ph, ok := ret.Results[0].(*ssa.Phi); ok {
+					for i, e := range ph.Edges {
+						if k, ok := e.(*ssa.Const); ok && boolConst(k) && rA[ph.Block().Preds[i]] && !removedAll[edge{ph.Block().Preds[i], ph.Block()}] {
+							bad = "accepts (true) on a path that is not gated by the container's Convex() (" + p.Pos(ret.Pos()) + ")"
+						}
+					}
+				}
+			}
+		}
+		c.Expect(bad == "", "E12.convex", con, p.Pos(fn.Pos()), "every acceptance that skips the segment tests is reachable only through Convex()==true of the container ring (or a recognised special case: A==B, on-edge analysis, rectangle shortcut)", bad)
 	}
 	for _, fn := range p.RepoSourceFuncs() {
 		if fn.Name() != "Convex" || fn.Signature.Recv() == nil || fn.Synthetic != "" {
@@ -400,5 +516,215 @@ func (p *Program) ruleDerivedAttributes(c *Check) {
 			}
 		}
 		c.Expect(good, "E12.attr", "geometry.makeSeries#processPoints", p.Pos(ms.Pos()), "the attributes are computed from the constructor's own points and closed flag", "makeSeries does not compute the attributes from its own (points, closed)")
+	}
+}
+
+// derivedFromParam: v is par or obtained from it by field/index selection and loads.
+func derivedFromParam(v ssa.Value, par *ssa.Parameter) bool {
+	for i := 0; i < 12; i++ {
+		switch x := v.(type) {
+		case *ssa.Parameter:
+			return x == par
+		case *ssa.Field:
+			v = x.X
+		case *ssa.FieldAddr:
+			v = x.X
+		case *ssa.UnOp:
+			v = x.X
+		case *ssa.Alloc:
+			// spilled parameter: find the store of the parameter into it
+			for _, r := range *x.Referrers() {
+				if st, ok := r.(*ssa.Store); ok && st.Addr == x {
+					if pp, ok := st.Val.(*ssa.Parameter); ok {
+						return pp == par
+					}
+				}
+			}
+			return false
+		default:
+			return false
+		}
+	}
+	return false
+}
+
+// ruleCircleConstructor (C13): NewCircle keeps the centre and the radius it
+// was given, and the threshold it stores for containsPoint is exactly
+// geo.DistanceToHaversine of the (normalised) radius — the same function of
+// distance that geo.Haversine is compared with.  The constructor (and any
+// repository helper it uses) is run for every order type of its arguments with
+// the geo package opaque.
+func (p *Program) ruleCircleConstructor(c *Check) {
+	fn := p.Func("geojson", "NewCircle")
+	if fn == nil || p.Decl(fn) == nil {
+		c.Undecided("E12.circle", "anchor:geojson.NewCircle", "", "function not found")
+		return
+	}
+	before := len(c.Obs)
+	p.runE8(c, &e8row{id: "geojson.NewCircle#fields", fn: fn, opaquePkg: map[*types.Package]bool{p.Geo.Types: true},
+		atoms: []string{"0"},
+		what:  "the circle keeps centre and radius as given; for a positive radius the stored threshold is geo.DistanceToHaversine(radius) with the radius at most normalised by geo.NormalizeDistance",
+		spec: func(a *e8assign, n *e8names, out *e8out) string {
+			if !out.returned || len(out.ret) != 1 || out.ret[0] == nil || out.ret[0].k != kStruct {
+				return "no circle is returned"
+			}
+			g := out.ret[0]
+			if x, y := leaf(g, "center", "X"), leaf(g, "center", "Y"); x == nil || y == nil || x.name != "p0.X" || y.name != "p0.Y" {
+				return "the centre stored is not the centre given"
+			}
+			if m := leaf(g, "meters"); m == nil || m.k != kScalar || m.name != "p1" {
+				return "the radius stored is not the radius given"
+			}
+			h := leaf(g, "haversine")
+			if h == nil || h.k != kScalar {
+				return "no haversine threshold is stored"
+			}
+			exact := h.name == "geo.DistanceToHaversine(geo.NormalizeDistance(p1))" || h.name == "geo.DistanceToHaversine(p1)"
+			if a.R("p1") > a.R("0") {
+				if !exact {
+					return "for a positive radius the stored threshold is " + h.name + ", not geo.DistanceToHaversine of the (normalised) radius: containsPoint would compare geo.Haversine with a different function of distance"
+				}
+			} else if !exact && h.name != "0" {
+				return "for a non-positive radius the stored threshold is " + h.name
+			}
+			return ""
+		}})
+	for _, o := range c.Obs[before:] {
+		o.Rule = "E12.circle"
+	}
+}
+
+// ruleNudge (C01/C19): the half-open rule of the ray cast ("an endpoint level
+// with the point counts as below it") is implemented by moving the query
+// point's Y to the next representable value above, for as long as it is level
+// with an endpoint.  Every write to the Y of the (copied) query point inside
+// Raycast must therefore be `y = math.Nextafter(y, +Inf)` (directly or through
+// a one-line helper), inside a loop that re-tests the level condition.
+func (p *Program) ruleNudge(c *Check) {
+	fn := p.Method("geometry", "Segment", "Raycast")
+	fd, pkg := p.Decl(fn), p.DeclPkg(fn)
+	con := "geometry.Segment.Raycast#nudge"
+	if fd == nil || fd.Type.Params == nil || len(fd.Type.Params.List) == 0 {
+		c.Undecided("E12.nudge", con, "", "function not found")
+		return
+	}
+	info := pkg.TypesInfo
+	isUp := func(e ast.Expr, lhs string, depth int) bool { return false }
+	var isUpImpl func(e ast.Expr, lhs string, cinfo *types.Info, depth int) bool
+	isUpImpl = func(e ast.Expr, lhs string, cinfo *types.Info, depth int) bool {
+		call, ok := ast.Unparen(e).(*ast.CallExpr)
+		if !ok {
+			return false
+		}
+		callee, _ := typeutil.Callee(cinfo, call).(*types.Func)
+		if callee == nil || callee.Pkg() == nil {
+			return false
+		}
+		if callee.Pkg().Path() == "math" && callee.Name() == "Nextafter" && len(call.Args) == 2 {
+			if lhs != "" && p.src(call.Args[0]) != lhs {
+				return false
+			}
+			inf, ok := ast.Unparen(call.Args[1]).(*ast.CallExpr)
+			if !ok || len(inf.Args) != 1 {
+				return false
+			}
+			ic, _ := typeutil.Callee(cinfo, inf).(*types.Func)
+			if ic == nil || ic.Pkg() == nil || ic.Pkg().Path() != "math" || ic.Name() != "Inf" {
+				return false
+			}
+			tv, ok := cinfo.Types[inf.Args[0]]
+			return ok && tv.Value != nil && constant.Sign(tv.Value) > 0
+		}
+		// a one-line repository helper: return math.Nextafter(param, +Inf)
+		if depth < 2 && p.IsRepoPkg(callee.Pkg()) && len(call.Args) == 1 && (lhs == "" || p.src(call.Args[0]) == lhs) {
+			if hd := p.Decl(callee); hd != nil && hd.Body != nil && len(hd.Body.List) == 1 && len(hd.Type.Params.List) == 1 && len(hd.Type.Params.List[0].Names) == 1 {
+				if ret, ok := hd.Body.List[0].(*ast.ReturnStmt); ok && len(ret.Results) == 1 {
+					return isUpImpl(ret.Results[0], hd.Type.Params.List[0].Names[0].Name, p.DeclPkg(callee).TypesInfo, depth+1)
+				}
+			}
+		}
+		return false
+	}
+	_ = isUp
+	// the local copies of the query point
+	qp := map[types.Object]bool{}
+	for _, nm := range fd.Type.Params.List[0].Names {
+		qp[info.Defs[nm]] = true
+	}
+	ast.Inspect(fd.Body, func(n ast.Node) bool {
+		as, ok := n.(*ast.AssignStmt)
+		if !ok || as.Tok != token.DEFINE || len(as.Lhs) != len(as.Rhs) {
+			return true
+		}
+		for i, r := range as.Rhs {
+			if id, ok := ast.Unparen(r).(*ast.Ident); ok && qp[info.ObjectOf(id)] {
+				if l, ok := as.Lhs[i].(*ast.Ident); ok {
+					qp[info.ObjectOf(l)] = true
+				}
+			}
+		}
+		return true
+	})
+	writes, bad := 0, ""
+	var stack []ast.Node
+	ast.Inspect(fd.Body, func(n ast.Node) bool {
+		if n == nil {
+			stack = stack[:len(stack)-1]
+			return true
+		}
+		stack = append(stack, n)
+		var lhs ast.Expr
+		var rhs ast.Expr
+		switch st := n.(type) {
+		case *ast.AssignStmt:
+			if len(st.Lhs) == 1 && len(st.Rhs) == 1 {
+				lhs, rhs = st.Lhs[0], st.Rhs[0]
+				if st.Tok != token.ASSIGN && st.Tok != token.DEFINE {
+					rhs = nil // op-assignment
+				}
+			}
+		case *ast.IncDecStmt:
+			lhs = st.X
+		}
+		sel, ok := lhs.(*ast.SelectorExpr)
+		if !ok || sel.Sel.Name != "Y" {
+			return true
+		}
+		id, ok := ast.Unparen(sel.X).(*ast.Ident)
+		if !ok || !qp[info.ObjectOf(id)] {
+			return true
+		}
+		writes++
+		if rhs == nil || !isUpImpl(rhs, p.src(lhs), info, 0) {
+			bad = "the query point's Y is changed by something other than math.Nextafter(y, +Inf) (" + p.Pos(n.Pos()) + "): the half-open rule at endpoints is no longer exact for every coordinate"
+			return true
+		}
+		inLoop := false
+		for _, anc := range stack {
+			if f, ok := anc.(*ast.ForStmt); ok && f.Cond != nil {
+				eqs := 0
+				ast.Inspect(f.Cond, func(m ast.Node) bool {
+					if be, ok := m.(*ast.BinaryExpr); ok && be.Op == token.EQL && (p.src(be.X) == p.src(lhs) || p.src(be.Y) == p.src(lhs)) {
+						eqs++
+					}
+					return true
+				})
+				if eqs >= 2 {
+					inLoop = true
+				}
+			}
+		}
+		if !inLoop {
+			bad = "the nudge is not repeated while the point is level with either endpoint (" + p.Pos(n.Pos()) + "): one step can land on the other endpoint's Y"
+		}
+		return true
+	})
+	switch {
+	case bad != "":
+		c.Bad("E12.nudge", con, p.declPos(fn), bad)
+	case writes == 0:
+		c.Bad("E12.nudge", con, p.declPos(fn), "the query point is never nudged off an endpoint's level: a vertex level with the point is counted for both segments that share it")
+	default:
+		c.OK("E12.nudge", con, p.declPos(fn), "the only writes to the query point's Y are y = math.Nextafter(y, +Inf), repeated while level with an endpoint")
 	}
 }
